@@ -12,7 +12,12 @@ root = ET.parse(sys.argv[1]).getroot()
 filters = sys.argv[2:]
 seen = {}
 for tc in root.iter("testcase"):
-    tid = tc.get("classname") + "::" + tc.get("name")
+    cn = tc.get("classname")
+    if not cn.startswith("qutip."):
+        # pytest invoked with explicit file paths roots classnames at the
+        # rootdir (qutip/tests has its own conftest): normalise
+        cn = "qutip.tests." + cn
+    tid = cn + "::" + tc.get("name")
     bad = any(ch.tag in ("failure", "error", "skipped") for ch in tc)
     seen[tid] = not bad
 missing = []
@@ -24,6 +29,8 @@ for s in stable:
             missing.append(("not-run", s))
     elif not seen[s]:
         missing.append(("FAILED", s))
+matched = sum(1 for s in stable if s in seen)
+print("stable tests matched to this run:", matched)
 print("stable tests considered:", sum(1 for s in stable if (not filters or any(s.startswith(f) for f in filters))),
       "ran:", len(seen), "problems:", len(missing))
 for m in sorted(missing)[:60]:
